@@ -229,14 +229,6 @@ pub proof fn lemma_dec_val_shift(s: Seq<u8>, t: Seq<u8>, off: int, a: int, b: in
     proof { lemma_digits_run(s, i0, *index - i0); lemma_digits_end_bounds(s, *index as int); }
 //@end
 
-// What parse_number consumes: like the RFC 8259 number without sign, except that after a leading '0' it
-// stops (the caller rejects the digit that follows; a digit can never follow a value).
-pub open spec fn lenient_end(s: Seq<u8>, p: int) -> Option<int> {
-    if !dig_at(s, p) { None } else if s[p] == 0x30 { frac_exp_end(s, p + 1) } else { frac_exp_end(s, digits_end(s, p)) }
-}
-pub proof fn lemma_lenient_extends_grammar(s: Seq<u8>, p: int)
-    ensures unsigned_end(s, p).is_some() ==> lenient_end(s, p) == unsigned_end(s, p),
-{ }
 pub open spec fn is_plain_int(s: Seq<u8>, p: int) -> bool {
     let e = digits_end(s, p);
     dig_at(s, p) && (s[p] != 0x30 || !dig_at(s, p + 1)) && !at(s, e, 0x2e) && !at(s, e, 0x65) && !at(s, e, 0x45)
